@@ -1,24 +1,5 @@
 #![allow(dead_code)]
-pub mod checks;
-mod cfg;
-mod common;
-mod cxx;
-mod cxxrun;
-mod doc;
-mod form;
-mod gen;
-mod hdr;
-mod isolate;
-mod lang;
-mod langgen;
-mod langdoc;
-mod langedit;
-mod meta;
-mod qml;
-mod translate;
-mod uigrammar;
-mod vtypes;
-mod xml;
+use qv::*;
 
 use common::{Env, Known};
 
